@@ -306,6 +306,21 @@ def malformed(ctx, jwk, rng):
             yield f"okp-x-long-{priv}", {**base, "x": b64u_enc(x + b"\0")}
             yield f"crv-unknown-{priv}", {**base, "crv": "Ed25518"}
             yield f"crv-ec-name-{priv}", {**base, "crv": "P-256"}
+        if jwk["crv"] in ("Ed25519", "Ed448"):
+            # octet strings of the right length that do not encode a point of the curve (judged by pycryptodome's decoder)
+            from Crypto.PublicKey import ECC
+            found = 0
+            for y in list(range(2, 60)) + [2 ** 200 + 7, 2 ** 250 + 3]:
+                enc = y.to_bytes(n, "little")
+                try:
+                    ECC.construct(curve=jwk["crv"], point_x=None, point_y=None) if False else __import__("Crypto.Signature.eddsa", fromlist=["import_public_key"]).import_public_key(enc)
+                except ValueError:
+                    found += 1
+                    yield f"okp-point-not-on-curve:{jwk['crv']}", {"kty": "OKP", "crv": jwk["crv"], "x": b64u_enc(enc)}
+                    if found >= 3:
+                        break
+                except Exception:
+                    continue
         d = b64u_dec(jwk["d"])
         yield "okp-d-short", {**jwk, "d": b64u_enc(d[:-1])}
         yield "okp-d-long", {**jwk, "d": b64u_enc(d + b"\0")}
